@@ -65,6 +65,9 @@ type c04Case struct {
 	Cuts    []int   `json:"cuts"`           // cut positions in the concatenated stream; [-1] = one byte per read; [-2] = one message per read
 	Mode    string  `json:"mode"`           // "inbound" | "outbound"
 	StallMs int     `json:"stall_ms,omitempty"` // > 0: the peer pauses this long (virtual time) between the chunks
+	// OutFirst: this side writes one message of its own before the peer's bytes arrive (the write path arms its
+	// deadline; with a pause longer than that deadline the reader must still be there afterwards)
+	OutFirst bool `json:"out_first,omitempty"`
 }
 
 func streamOf(seq []int) ([]byte, [][]byte) {
@@ -232,6 +235,10 @@ func c04Inbound(c c04Case, obs *c04Obs) {
 		cl := simplefixgo.NewInitiator(conns[0], h, c.Buf, 5*time.Second)
 		go func() { obs.serveErr = cl.Serve(); obs.served = true }()
 		vsched.Settle()
+		if c.OutFirst {
+			_ = h.SendRaw(rawFrom("SELF", "PEER", "D", 1, "11=own"))
+			vsched.Settle()
+		}
 		feedChunks(conns[0], chunksOf(s1, m1, c.Cuts), c.StallMs)
 		vsched.Settle()
 		conns[0].eof = true
@@ -240,10 +247,14 @@ func c04Inbound(c c04Case, obs *c04Obs) {
 	} else {
 		l := &slistener{}
 		idx := 0
+		var sendRaw0 func([]byte) error
 		a := simplefixgo.NewAcceptor(l, simplefixgo.NewAcceptorHandlerFactory("35", c.Buf), 5*time.Second, func(h simplefixgo.AcceptorHandler) {
 			my := idx // taken before any scheduling point: two serve tasks may be in here at once
 			idx++
 			h.HandleIncoming(simplefixgo.AllMsgTypes, record(my))
+			if my == 0 {
+				sendRaw0 = h.SendRaw
+			}
 		})
 		go func() { obs.serveErr = a.ListenAndServe(); obs.served = true }()
 		if len(c.Seq2) > 0 {
@@ -253,6 +264,10 @@ func c04Inbound(c c04Case, obs *c04Obs) {
 			l.q = append(l.q, cn)
 		}
 		vsched.Settle()
+		if c.OutFirst && sendRaw0 != nil {
+			_ = sendRaw0(rawFrom("SELF", "PEER", "D", 1, "11=own"))
+			vsched.Settle()
+		}
 		feedChunks(conns[0], chunksOf(s1, m1, c.Cuts), c.StallMs)
 		if len(c.Seq2) > 0 {
 			s2, m2 := streamOf(c.Seq2)
@@ -564,12 +579,12 @@ func idxOf(s []string, x string) int {
 }
 
 func c04Key(c c04Case) string {
-	return fmt.Sprintf("%s/%d/%v/%v/%v/%s/%d", c.Role, c.Buf, c.Seq, c.Seq2, c.Cuts, c.Mode, c.StallMs)
+	return fmt.Sprintf("%s/%d/%v/%v/%v/%s/%d/%v", c.Role, c.Buf, c.Seq, c.Seq2, c.Cuts, c.Mode, c.StallMs, c.OutFirst)
 }
 
 func c04ScenarioOf(c c04Case, delay bool, bound int) *schedScenario {
 	var obs c04Obs
-	p := map[string]any{"role": c.Role, "buf": c.Buf, "seq": c.Seq, "seq2": c.Seq2, "cuts": c.Cuts, "mode": c.Mode, "stall_ms": c.StallMs}
+	p := map[string]any{"role": c.Role, "buf": c.Buf, "seq": c.Seq, "seq2": c.Seq2, "cuts": c.Cuts, "mode": c.Mode, "stall_ms": c.StallMs, "out_first": c.OutFirst}
 	sc := &schedScenario{Name: "c04", Params: p, Strict: true, Delay: delay, Bound: bound, MaxSteps: 400000}
 	sc.Body = func() {
 		switch c.Mode {
@@ -631,7 +646,7 @@ func pints(p map[string]any, k string) []int {
 }
 
 func c04FromParams(name string, p map[string]any) *schedScenario {
-	c := c04Case{Role: pstr(p, "role"), Buf: pint(p, "buf"), Seq: pints(p, "seq"), Seq2: pints(p, "seq2"), Cuts: pints(p, "cuts"), Mode: pstr(p, "mode"), StallMs: pint(p, "stall_ms")}
+	c := c04Case{Role: pstr(p, "role"), Buf: pint(p, "buf"), Seq: pints(p, "seq"), Seq2: pints(p, "seq2"), Cuts: pints(p, "cuts"), Mode: pstr(p, "mode"), StallMs: pint(p, "stall_ms"), OutFirst: pbool(p, "out_first")}
 	return c04ScenarioOf(c, true, 0)
 }
 
@@ -751,6 +766,15 @@ func runC04(R *vlib.Out) {
 					}
 					if !runDefault(c04Case{Role: role, Buf: buf, Seq: seq, Cuts: []int{-1}, Mode: "inbound", StallMs: 300}) {
 						goto done
+					}
+					// this side has written something itself; the peer then pauses for longer than the write deadline
+					// (5 s), between two messages and in the middle of one
+					if len(seq) <= 2 || thorough {
+						for _, cuts := range [][]int{{-2}, {len(s) / 2}} {
+							if !runDefault(c04Case{Role: role, Buf: buf, Seq: seq, Cuts: cuts, Mode: "inbound", StallMs: 7000, OutFirst: true}) {
+								goto done
+							}
+						}
 					}
 				}
 			}
@@ -1005,4 +1029,9 @@ func runC18conn(R *vlib.Out) {
 			}
 		}
 	}
+}
+
+func pbool(p map[string]any, k string) bool {
+	b, _ := p[k].(bool)
+	return b
 }
